@@ -15,13 +15,11 @@ def Good (o : Out Bytes (List DErr) α) : Prop :=
 theorem Good.ok {a : α} {r : Bytes} : Good (.ok a r : Out Bytes (List DErr) α) := trivial
 theorem Good.err1 {e : DErr} {r : Bytes} : Good (.err [e] r : Out Bytes (List DErr) α) := by simp [Good]
 
-theorem decodeControl_good (w : UInt16) (o : Opts) (s : Bytes) :
-    Good ((decodeControl w o : M Bytes (List DErr) Msg) s) := by
-  unfold decodeControl
-  by_cases h1 : (o.unused && isPrioritized w) = true
-  · simp [h1, Good]
-  by_cases h2 : (o.unused && hasOffset w) = true
-  · simp [h1, h2, Good]
+theorem decodeControlCore_good (w : UInt16) (s : Bytes) :
+    Good ((decodeControlCore w : M Bytes (List DErr) Msg) s) := by
+  unfold decodeControlCore
+  have h1 : True := trivial
+  have h2 : True := trivial
   by_cases h3 : (!hasLength w) = true
   · simp [h1, h2, h3, Good]
   by_cases h4 : (!hasNsNr w) = true
@@ -46,6 +44,16 @@ theorem decodeControl_good (w : UInt16) (o : Opts) (s : Bytes) :
   by_cases he : resErrors rs ≠ []
   · simp [hf, he, Good]
   · simp [hf, he, Good]
+
+theorem decodeControl_good (w : UInt16) (o : Opts) (s : Bytes) :
+    Good ((decodeControl w o : M Bytes (List DErr) Msg) s) := by
+  unfold decodeControl
+  by_cases h1 : (o.unused && isPrioritized w) = true
+  · simp [h1, Good]
+  by_cases h2 : (o.unused && hasOffset w) = true
+  · simp [h1, h2, Good]
+  simp only [h1, h2, Bool.false_eq_true, if_false, M.ite_apply]
+  exact decodeControlCore_good w s
 
 theorem liftE_good {m : M Bytes DErr α} (h : NoFault m) (s : Bytes) : Good (liftE m s) := by
   unfold liftE
